@@ -144,7 +144,9 @@ def run_task(task):
   from hypothesis import HealthCheck, Phase, given, settings  # pylint: disable=g-import-not-at-top
 
   mod = importlib.import_module(f"vp.props.{task['module']}")
-  _setup_jax(getattr(mod, "ENV", {}))
+  env_spec = dict(getattr(mod, "ENV", {}))
+  env_spec.update(task.get("shard", {}).get("env", {}))
+  _setup_jax(env_spec)
   if hasattr(mod, "worker_init"):
     mod.worker_init(task)
   shard = task["shard"]
